@@ -37,13 +37,40 @@ func noEffectCallee(name string) bool {
 type Effects struct {
 	all  bool
 	keys map[string]types.Type
+	// when all is set because of "modifies allbut(...)" clauses only: the key prefixes every one of them spares
+	keep    []string
+	allBare bool // some contributor modifies everything without exception
 }
 
 func newEffects() *Effects { return &Effects{keys: map[string]types.Type{}} }
 
+// setAll: everything may be modified, without exception
+func (e *Effects) setAll() { e.all, e.allBare, e.keep = true, true, nil }
+
 func (e *Effects) add(o *Effects) {
 	if o.all {
-		e.all = true
+		switch {
+		case o.allBare || len(o.keep) == 0:
+			e.allBare, e.keep = true, nil
+		case e.allBare:
+		case !e.all:
+			e.keep = append([]string{}, o.keep...)
+		default:
+			// intersection of the spared prefixes
+			var both []string
+			for _, p := range e.keep {
+				for _, q := range o.keep {
+					if p == q {
+						both = append(both, p)
+					}
+				}
+			}
+			e.keep = both
+			if len(both) == 0 {
+				e.allBare = true
+			}
+		}
+		e.all = true // (merged above)
 	}
 	for k, t := range o.keys {
 		e.keys[k] = t
@@ -67,7 +94,7 @@ func (x *Exec) frameOf(fn *ssa.Function, visiting map[*ssa.Function]bool) *Effec
 		if noEffectCallee(fn.String()) {
 			return e
 		}
-		e.all = true
+		e.setAll()
 		return e
 	}
 	visiting[fn] = true
@@ -99,7 +126,7 @@ func (x *Exec) blockEffects(fn *ssa.Function, b *ssa.BasicBlock, visiting map[*s
 		case *ssa.Defer:
 			e.add(x.callEffects(&v.Call, visiting))
 		case *ssa.Send, *ssa.Select:
-			e.all = true
+			e.setAll()
 		}
 	}
 	return e
@@ -153,13 +180,13 @@ func (x *Exec) addrEffect(e *Effects, addr ssa.Value) {
 			return
 		}
 		if _, isArr := et.Underlying().(*types.Array); isArr {
-			e.all = true
+			e.setAll()
 			return
 		}
 		e.keys[cellKey(et)] = et
 		return
 	}
-	e.all = true
+	e.setAll()
 }
 
 func (x *Exec) structEffect(e *Effects, t types.Type) {
@@ -195,7 +222,7 @@ func (x *Exec) callEffects(c *ssa.CallCommon, visiting map[*ssa.Function]bool) *
 		if c.Method != nil && noEffectCallee(c.Method.FullName()) {
 			return e // metrics counters, loggers, Stringers behind an interface (T1/T2)
 		}
-		e.all = true
+		e.setAll()
 		return e
 	}
 	callee := c.StaticCallee()
@@ -203,7 +230,7 @@ func (x *Exec) callEffects(c *ssa.CallCommon, visiting map[*ssa.Function]bool) *
 		if mc, ok := c.Value.(*ssa.MakeClosure); ok {
 			return x.frameOf(mc.Fn.(*ssa.Function), visiting)
 		}
-		e.all = true
+		e.setAll()
 		return e
 	}
 	name := callee.String()
@@ -229,7 +256,7 @@ func (x *Exec) contractEffects(con *Contract, sig *types.Signature) *Effects {
 		if con.Trusted {
 			return e // trusted contracts without modifies are pure by declaration
 		}
-		e.all = true
+		e.setAll()
 		return e
 	}
 	scope := map[string]types.Type{}
@@ -249,7 +276,7 @@ func (x *Exec) modEffect(e *Effects, m ast.Expr, scope map[string]types.Type, co
 	switch n := m.(type) {
 	case *ast.Ident:
 		if n.Name == "all" {
-			e.all = true
+			e.setAll()
 			return
 		}
 		// ghost variable
@@ -258,7 +285,7 @@ func (x *Exec) modEffect(e *Effects, m ast.Expr, scope map[string]types.Type, co
 	case *ast.SelectorExpr:
 		bt := x.staticType(n.X, scope, con)
 		if bt == nil {
-			e.all = true
+			e.setAll()
 			return
 		}
 		if p, ok := bt.Underlying().(*types.Pointer); ok {
@@ -266,7 +293,7 @@ func (x *Exec) modEffect(e *Effects, m ast.Expr, scope map[string]types.Type, co
 		}
 		stt, ok := bt.Underlying().(*types.Struct)
 		if !ok {
-			e.all = true
+			e.setAll()
 			return
 		}
 		for i := 0; i < stt.NumFields(); i++ {
@@ -280,16 +307,16 @@ func (x *Exec) modEffect(e *Effects, m ast.Expr, scope map[string]types.Type, co
 				return
 			}
 		}
-		e.all = true
+		e.setAll()
 	case *ast.StarExpr:
 		bt := x.staticType(n.X, scope, con)
 		if bt == nil {
-			e.all = true
+			e.setAll()
 			return
 		}
 		p, ok := bt.Underlying().(*types.Pointer)
 		if !ok {
-			e.all = true
+			e.setAll()
 			return
 		}
 		if kindOf(p.Elem()) == KStruct {
@@ -300,7 +327,17 @@ func (x *Exec) modEffect(e *Effects, m ast.Expr, scope map[string]types.Type, co
 	case *ast.CallExpr:
 		id, _ := n.Fun.(*ast.Ident)
 		if id != nil && id.Name == "allbut" {
-			e.all = true
+			o := newEffects()
+			o.all = true
+			func() {
+				defer func() {
+					if r := recover(); r != nil {
+						o.allBare = true
+					}
+				}()
+				o.keep = x.keepPrefixes(con.Pkg, n.Args)
+			}()
+			e.add(o)
 			return
 		}
 		if id != nil && id.Name == "gh" && len(n.Args) == 2 {
@@ -311,7 +348,7 @@ func (x *Exec) modEffect(e *Effects, m ast.Expr, scope map[string]types.Type, co
 			}
 		}
 		if id == nil || len(n.Args) != 1 {
-			e.all = true
+			e.setAll()
 			return
 		}
 		bt := x.staticType(n.Args[0], scope, con)
@@ -325,7 +362,7 @@ func (x *Exec) modEffect(e *Effects, m ast.Expr, scope map[string]types.Type, co
 					return
 				}
 			}
-			e.all = true
+			e.setAll()
 		case "entries":
 			if bt != nil {
 				if _, ok := bt.Underlying().(*types.Map); ok {
@@ -333,7 +370,7 @@ func (x *Exec) modEffect(e *Effects, m ast.Expr, scope map[string]types.Type, co
 					return
 				}
 			}
-			e.all = true
+			e.setAll()
 		case "held":
 			// lock state is not heap
 		case "ghall":
@@ -342,12 +379,12 @@ func (x *Exec) modEffect(e *Effects, m ast.Expr, scope map[string]types.Type, co
 				e.keys["G."+nm] = mathInt
 				return
 			}
-			e.all = true
+			e.setAll()
 		default:
-			e.all = true
+			e.setAll()
 		}
 	default:
-		e.all = true
+		e.setAll()
 	}
 }
 
@@ -401,6 +438,32 @@ func (x *Exec) staticType(n ast.Expr, scope map[string]types.Type, con *Contract
 
 func (x *Exec) applyEffects(st *State, e *Effects) {
 	if e.all {
+		if !e.allBare && len(e.keep) > 0 {
+			// everything but the spared prefixes -- minus those that are written explicitly elsewhere in the same region
+			var keep []string
+			for _, p := range e.keep {
+				written := false
+				for k := range e.keys {
+					ks := []string{k}
+					if strings.HasPrefix(k, "MD.") || strings.HasPrefix(k, "MV.") || strings.HasPrefix(k, "ML.") {
+						// domain, values and length of a map type go together
+						ks = []string{"MD." + k[3:], "MV." + k[3:], "ML." + k[3:]}
+					}
+					for _, kk := range ks {
+						if strings.HasPrefix(kk, p) || strings.HasPrefix(p, kk) {
+							written = true
+						}
+					}
+				}
+				if !written {
+					keep = append(keep, p)
+				}
+			}
+			if len(keep) > 0 {
+				x.havocAllBut(st, keep)
+				return
+			}
+		}
 		x.havocAll(st)
 		return
 	}
@@ -1103,7 +1166,7 @@ func (x *Exec) readsOf(fn *ssa.Function, visiting map[*ssa.Function]bool) *Effec
 		if con := x.eng.cs.Funcs[x.eng.fnKey(fn)]; con != nil && con.Opts["heap-independent"] != "" {
 			return e
 		}
-		e.all = true
+		e.setAll()
 		return e
 	}
 	visiting[fn] = true
@@ -1148,12 +1211,12 @@ func (x *Exec) readsOf(fn *ssa.Function, visiting map[*ssa.Function]bool) *Effec
 					if con := x.eng.ifaceContract(c); con != nil && con.Pure && con.Opts["heap-independent"] != "" {
 						continue
 					}
-					e.all = true
+					e.setAll()
 					continue
 				}
 				callee := c.StaticCallee()
 				if callee == nil {
-					e.all = true
+					e.setAll()
 					continue
 				}
 				if isLockOp(callee.String()) != "" || noEffectCallee(callee.String()) {
